@@ -159,6 +159,10 @@ def r11_2(ctx):
                     for loop in walk_local(f.node):
                         if isinstance(loop, ast.For) and isinstance(loop.target, ast.Name) and loop.target.id == a0.id and norm(loop.iter).startswith(target + ".splitlines("):
                             okv = True
+                    from .common import chunk_source as _chunk_source
+                    cs_ = _chunk_source(f.node, a0.id)
+                    if cs_ is not None and cs_[0] == target:
+                        okv = True
             ctx.check(okv, f.fq, short(wc), f"{mod.relpath}:{wc.lineno}", "the value written is the string rendered from the snapshot",
                       f"write() is given `{norm(a0) if a0 is not None else None}`, not the text rendered from the buffer snapshot")
             # guarded by _buffer_index == 0
@@ -186,6 +190,14 @@ def r11_2(ctx):
             cur = mod.parent_of.get(cur)
         if not inloop:
             nonloop.append(wc)
+        else:
+            # `for chunk in (text.splitlines(True) if WINDOWS else [text]): write(chunk)` - off Windows the loop runs exactly once, with
+            # the whole text: that is the one write of the print
+            from .common import chunk_source as _chunk_source2
+            a0_ = wc.args[0] if wc.args else None
+            cs2 = _chunk_source2(f.node, a0_.id) if isinstance(a0_, ast.Name) else None
+            if cs2 is not None and cs2[1] in ("pieces-or-whole:WINDOWS",):
+                nonloop.append(wc)
     ctx.check(len(nonloop) == 1, f.fq, "single write call", f.where, "one write() call outside loops (one print -> one write)",
               f"{len(nonloop)} write() calls outside loops in _check_buffer: a print no longer reaches the file in exactly one write")
 
